@@ -109,8 +109,13 @@ func (p *c09) Init(tier string) {
 		func() any {
 			return map[string]any{"a": []any{map[string]any{"a": -9007199254740992.0, "b": "9007199254740993"}, map[string]any{"a": 1e18, "b": "-0.5e1"}, map[string]any{"a": 1152921504606846976.0}}}
 		})
-	p.dnames = []string{"big-numbers", "big-numbers-in-array", "scalars", "nested-objects", "array-of-objects", "2d", "2d-of-objects-ragged", "empty", "ragged-with-empty", "scalar-where-array-expected", "3d", "objects-with-arrays", "spare-capacity", "nulls", "4d"}
-	p.dnames = append(p.dnames[2:], p.dnames[:2]...)
+	p.docs = append(p.docs,
+		// duplicates followed by new values (distinct=> must not compact the document's own array)
+		func() any {
+			return map[string]any{"a": []any{1.0, 1.0, 2.0, 1.0, 3.0}, "b": []any{[]any{1.0}, []any{1.0}, []any{2.0}}}
+		})
+	p.dnames = []string{"big-numbers", "big-numbers-in-array", "duplicates", "scalars", "nested-objects", "array-of-objects", "2d", "2d-of-objects-ragged", "empty", "ragged-with-empty", "scalar-where-array-expected", "3d", "objects-with-arrays", "spare-capacity", "nulls", "4d"}
+	p.dnames = append(p.dnames[3:], p.dnames[:3]...)
 	p.nGram = len(p.menu) * (len(p.menu) + 1)
 	p.alpha = []byte("a0.[](){}:|'=>-<")
 	p.blen = 4
@@ -141,7 +146,7 @@ func (p *c09) Describe(i int) any {
 		if s2 != nil {
 			steps = append(steps, *s2)
 		}
-		return map[string]any{"selector_prefix": selText(steps), "then": "itself and every extension by one more step of the menu, also with mix=> / distinct=> / bogus=> in front; on 13 documents; cold cache, warm cache, and after use on another document"}
+		return map[string]any{"selector_prefix": selText(steps), "then": "itself and every extension by one more step of the menu, also with mix=> / distinct=> / bogus=> in front; on 16 documents; cold cache, warm cache, and after use on another document"}
 	case i < p.nGram+3:
 		return map[string]any{"kind": "documented examples and keep=> forms"}
 	}
